@@ -155,10 +155,19 @@ class Problem:
         self.obs_in = rng.uniform(-1, 2, (B, D))
         self.obs_val = rng.uniform(-1, 1, (B, self.case["n_out"]))
 
-    def batch(self, rows=None, param_batch=None, obs_eq=None):
+    def batch(self, rows=None, param_batch=None, obs_eq=None, direct=False):
+        """direct=True: the batch object is built with its public constructor and the parameter batch is given as a
+        plain dict in reverse-sorted key insertion order (append_param_batch / jit would re-sort the keys)"""
         import jinns
 
         jnp = self.jnp
+        if direct and param_batch:
+            plain = self.batch(rows=rows, param_batch=None, obs_eq=obs_eq)
+            sl_ = slice(None) if rows is None else rows
+            d_ = {k: jnp.asarray(param_batch[k][sl_]) for k in sorted(param_batch, reverse=True)}
+            kw_ = {f: getattr(plain, f) for f in plain.__dataclass_fields__}
+            kw_["param_batch_dict"] = d_
+            return type(plain)(**kw_)
         sl = slice(None) if rows is None else rows
         kind = self.kind
         if kind == "ode":
@@ -316,6 +325,16 @@ def run_case(case, rec):
                 rec.count("grad_comparisons")
                 if not close(la, lb, 1e-7, 1e-9):
                     rec.violation("%s/gradient/network" % sig, "network gradient differs from the per-sample loop")
+        # a batch built directly with the public constructor, keys in reverse-sorted insertion order, evaluated eagerly
+        if len(batched) >= 2:
+            bd = pr.batch(param_batch=tabs, obs_eq=obs_eq, direct=True)
+            td = guard.call(loss.evaluate, params, bd)[1]
+            rec.count("direct_batches_reverse_key_order")
+            for t in exp:
+                if not close(float(td[t]), exp[t], 1e-8, 1e-10):
+                    rec.violation("%s/%s/direct-batch-key-order" % (sig, t),
+                                  "term %s = %r for a batch built directly with param_batch_dict keys %s (eager), expected %r"
+                                  % (t, float(td[t]), sorted(batched, reverse=True), exp[t]))
         # caller's params untouched (eager call: under jit the function only sees a copy of the containers)
         if case["seed"] % 3 == 0:
             te = guard.call(loss.evaluate, params, batch)[1]
